@@ -73,6 +73,15 @@ def judge_children(w, tap, reach):
     idx = {n: newsa_index(node) for n, node in w.nodes.items()}
     for ch in tap.children:
         q = quad(w, ch, idx)
+        if q is not None and q[0] is not None and q[1] is not None and q[3] is not None and q[2] is None and not ch.get('rewritten'):
+            # the exchange initiator installed its outbound half (towards the SPI the response named) and the responder both of its halves,
+            # but nothing at the initiator carries the SPI its own request announced: the inbound half it did install is no mirror image
+            inbound = sorted(k[2].hex() for k, rec in idx[ch['x_init']].items() if rec['t'] == q[0]['t'] and abs(rec['no'] - q[0]['no']) == 1 and k[0] == _addr_raw(ch['x_init_addr']))
+            if inbound:
+                return w.violation(PROP, 'kernel_sas_not_mirror_images', {'kind': 'initial' if ch['initial'] else ('rekey' if ch['rekey_of'] else 'additional'),
+                                                                          'pfs': ch['pfs'], 'direction': 'responder->initiator', 'field': 'spi'},
+                                   f'CHILD_SA {ch["spi_init"].hex()}/{ch["spi_resp"].hex()}: {ch["x_resp"]} sends towards SPI {ch["spi_init"].hex()}, the one the '
+                                   f'request it answered announced, but {ch["x_init"]} installed its inbound SA with SPI {inbound} in the same step')
         if q is None or any(x is None for x in q):
             reach['children_one_sided_or_uninstalled'] = reach.get('children_one_sided_or_uninstalled', 0) + 1
             continue
@@ -125,6 +134,13 @@ def generate(seed, tier):
         o['forced'] = 5
     sc = workload.pair_scenario(seed, PROP, o)
     sc['meta']['batch'] = 'lossy' if lossy else 'lossless'
+    if not lossy and r.random() < 0.2:
+        # two IKE_SAs between the same peers (both ends initiate), and an outage that swallows the first transmission of a CREATE_CHILD_SA
+        # request; before its retransmission the same endpoint has something to negotiate on the sibling IKE_SA (its CHILD_SAs were made
+        # together and expire together): what is retransmitted must still be the request of this negotiation
+        sc['sibling_window'] = {'fires': r.randint(1, 3), 'delay': r.choice([0.1, 0.4, 0.9, 1.4]), 'lose_second': r.random() < 0.6,
+                                'trigger': r.choice(['expire_soft', 'expire_soft', 'packet'])}
+        sc['meta']['batch'] = 'siblings'
     if r.random() < 0.2:
         sc['controller_attrs'] = {'B': {'cookie_threshold': 0}, 'A': {'cookie_threshold': 0}}
         sc['meta']['cookie_pressure'] = True
@@ -140,6 +156,52 @@ def run(scenario):
         ctx['tap'] = Wiretap(w)
         ctx['kr'] = KeyringMonitor(w, ctx['tap'])
         ctx['packets'] = []
+        sw = scenario.get('sibling_window')
+        if sw:
+            from sim.observe import parse_header
+
+            class SiblingWindow:
+                def __init__(self):
+                    self.seen, self.fires, self.armed = set(), 0, {}
+
+                def on_wire(self, meta, data):
+                    h = parse_header(data)
+                    if h is None or h['exch'] != 36 or h['R'] or w.now >= scenario.get('quiet_from', 1e9):
+                        return
+                    k = (meta['sender'], h['spi_i'], h['spi_r'], h['id'])
+                    if k in self.seen:
+                        return
+                    self.seen.add(k)
+                    x = meta['sender']
+                    node = w.nodes[x]
+                    if self.armed.get(x, -1.0) >= w.now:
+                        self.armed[x] = -1.0
+                        if sw['lose_second']:
+                            w.decisions.explicit[meta['key']] = {'fate': 'drop'}
+                        return
+                    mine = h['spi_i'] if h['I'] else h['spi_r']
+                    others = [sa for sa in node.ike_sas() if sa.my_spi != mine and sa.state.name == 'ESTABLISHED' and sa.child_sas]
+                    if self.fires >= sw['fires'] or not others:
+                        return
+                    self.fires += 1
+                    ctx.setdefault('reach', {})['sibling_window_opened'] = self.fires
+                    w.decisions.explicit[meta['key']] = {'fate': 'drop'}
+                    self.armed[x] = w.now + 1.95
+                    spi = bytes(others[0].child_sas[0].inbound_spi)
+
+                    def trig():
+                        if node.state != 'running':
+                            return
+                        if sw['trigger'] == 'packet' and ctx.get('packets'):
+                            mineflows = [p[2] for p in ctx['packets'] if p[1] == x]
+                            if mineflows:
+                                w.packet(x, mineflows[0])
+                                return
+                        keys = [k_ for k_ in node.kernel.sad if k_[2] == spi]
+                        if keys:
+                            node.kernel.expire_now(keys[0], False)
+                    w.after(sw['delay'], trig, 'sibling_window.trigger')
+            w.net.taps.append(SiblingWindow())
 
     def at_end(w, ctx):
         tap = ctx['tap']
